@@ -103,7 +103,7 @@ PROPS['C11'] = dict(
     technique='Verus postconditions that define every limb of the selected column from the inputs only, plus frame clauses over all other limb blocks, on the extracted real text',
     level_text='Unbounded proof for the coefficient-domain column operations: each ensures gives final(res).limb(col, j) for all j < size as a function of the read-only inputs (no old(res) on the right-hand side for out-of-place ops) and frame_ok: every block outside (col, 0..size) is unchanged.',
     level_note='Covers the vec_znx_* reference operations, the transform-domain wrappers of vec_znx_dft.rs (fft64 and ntt120, numeric kernels abstract), the GLWE operation wrappers, and -- core layer, as a dependency-flow proof over assumed HAL flow contracts -- gglwe_product_dft, glwe_keyswitch_internal, glwe_keyswitch and glwe_decrypt: with nothing required of the previous contents of res or of the scratch arena, no limb of the result depends on stale bytes (the accumulator taken from scratch must be cleared before the digit-grouped product: for dsize >= 3 its last limbs are only ever added to); idft/svp/vmp/convolution kernels themselves and the other core operations are not covered by this check.',
-    units=[V('vec_znx_arith'), V('vec_znx_ring'), V('vec_znx_merge'), V('vec_znx_split'), V('vec_znx_big'), V('vec_znx_normalize'), V('vec_znx_dft'), V('vec_znx_dft_ntt120'), V('vmp_fft64'), V('cnv_prepare_fft64'), V('cnv_apply_fft64'), V('glwe_ops'), V('core_keyswitch'), V('core_extprod'), V('core_decrypt'),
+    units=[V('vec_znx_arith'), V('vec_znx_ring'), V('vec_znx_merge'), V('vec_znx_split'), V('vec_znx_big'), V('vec_znx_normalize'), V('vec_znx_dft'), V('vec_znx_dft_ntt120'), V('vmp_fft64'), V('vmp_ntt120'), V('cnv_prepare_fft64'), V('cnv_apply_fft64'), V('glwe_ops'), V('core_keyswitch'), V('core_extprod'), V('core_decrypt'),
            K('poulpy-cpu-ref', 'verif_kani::c11_ak', ['c11_ak_dft_apply__a3_r2_step2_off1', 'c11_ak_dft_apply__a2_r3_step1_off0', 'c11_ak_dft_apply__a3_r3_step2_off0', 'c11_ak_dft_apply__a2_r2_step1_off1'],
              cls='bounded', tier='thorough', timeout=1500, bound='FFT64Ref, N=8, two output columns, (a_size, res_size, step, offset) constant per harness; numeric kernels abstract',
              functions=['VecZnxDftApply::vec_znx_dft_apply (fft64 reference, real shape logic; fft_ref / reim_from_znx_i64_ref / table fills replaced by bit-level mixers)'],
@@ -152,7 +152,7 @@ PROPS['C12'] = dict(
         K('poulpy-cpu-ref', 'hal_defaults::scratch::verif_kani', ['c12_take_slice_aligned_contract', 'c12_take_slice_aligned_panics_iff_too_small',
           'c12_take_slice_default_u8', 'c12_take_slice_default_i64', 'c12_take_slice_default_f64', 'c12_take_slice_default_i128'], cls='complete', timeout=600,
           functions=['hal_defaults::scratch::take_slice_aligned', 'HalScratchDefaults::take_slice_default', 'HalScratchDefaults::scratch_available_default', 'HalScratchDefaults::scratch_from_bytes_default']),
-        V('vec_znx_ring'), V('vec_znx_normalize'), V('hal_glue'), V('hal_delegates'), V('vmp_fft64'), V('glwe_ops'), V('core_keyswitch'), V('core_extprod'), V('core_mul'), V('core_lwe_ksk'), V('core_decrypt'),
+        V('vec_znx_ring'), V('vec_znx_normalize'), V('hal_glue'), V('hal_delegates'), V('vmp_fft64'), V('vmp_ntt120'), V('glwe_ops'), V('core_keyswitch'), V('core_extprod'), V('core_mul'), V('core_lwe_ksk'), V('core_decrypt'),
         K('poulpy-cpu-ref', 'verif_kani::c12_window', [f'c12_window_{op}__n4' for op in ('normalize_assign', 'rotate_assign', 'automorphism_assign', 'mul_xp_minus_one_assign', 'lsh_assign', 'rsh_assign')],
           cls='bounded', timeout=1200, bound='N=4 (limb byte size 32: not a multiple of the 64-byte alignment), size 2',
           functions=['HAL traits VecZnx{Normalize,Rotate,Automorphism,MulXpMinusOne,Lsh,Rsh}Assign with a scratch of exactly the companion *_tmp_bytes; two runs with different scratch contents']),
@@ -169,7 +169,7 @@ PROPS['C17'] = dict(
     technique='Verus: every index, split and slice length in the extracted functions is a discharged obligation under the layout invariant wf(); Kani pointer checks on the real unsafe allocator',
     level_text='For the functions under contract, all shapes: no out-of-bounds index/split; every limb block addressed lies inside the buffer (lemma_limb_len). Allocator: Kani memory-safety checks (OOB, misaligned, dangling) on take_slice_aligned / take_slice_default with symbolic alignment.',
     level_note='Only the listed functions; the unsafe accessor bodies (ZnxView::at/at_mut) are checked by Kani for buffers of 64 bytes (all well-formed shapes); FFT/NTT kernels, AVX code and the core layer are not covered.',
-    units=[V('znx'), V('vec_znx_arith'), V('vec_znx_ring'), V('vec_znx_normalize'), V('vmp_fft64'), V('cnv_prepare_fft64'), V('cnv_apply_fft64'),
+    units=[V('znx'), V('vec_znx_arith'), V('vec_znx_ring'), V('vec_znx_normalize'), V('vmp_fft64'), V('vmp_ntt120'), V('cnv_prepare_fft64'), V('cnv_apply_fft64'),
            K('poulpy-cpu-ref', 'hal_defaults::scratch::verif_kani', ['c12_take_slice_aligned_contract', 'c12_take_slice_default_i64', 'c12_take_slice_default_i128'], cls='complete', timeout=600,
              functions=['take_slice_aligned (unsafe)', 'take_slice_default (unsafe cast)']),
            K('poulpy-hal', 'layouts::vec_znx::verif_kani', ['c17_vec_znx_accessors_layout'], cls='complete', timeout=900,
@@ -371,7 +371,7 @@ PROPS['C07'] = dict(
     technique='Verus contracts on the real transform-domain wrappers of both backends (fft64 and ntt120 vec_znx_dft.rs: add/sub/copy/limb-select/zero/apply act limb-wise, numeric kernels abstract); Kani loop-free full-domain contract check of the real NTT120 scalar conversion kernels (the entry into the transform domain)',
     level_text='Unbounded (all shapes, steps, offsets, a_scale): every limb of the selected column of vec_znx_dft_{add_into, add_assign, add_scaled_assign, sub, sub_assign, sub_negate_assign, copy, zero, apply} and of their ntt120_* twins is the named kernel applied to exactly the input limbs the limb rule selects (limb offset + j*step, limb j + a_scale), zero past the source, every other limb block unchanged. Vector-matrix product (fft64 vmp_apply_dft_to_dft_core, all n >= 8, shapes, limb offsets of either parity, odd or even column counts): for every output limb jo and every 4-complex block, the product kernel is handed exactly (operand limb r, prepared-matrix entry (r, jo + limb_offset)) for r < min(rows, a_size) -- the sum of the row products -- under the interleaved two-column block layout; limbs past col_max - limb_offset are zero. Complete per coefficient for every i64 (and every mask): b_from_znx64_ref yields, for each of the four primes of the backend (Primes30), a residue congruent to x with the documented lazy range < 2^63 + Q; the masked variant equals the conversion of the masked value.',
     level_note='The numeric kernels (reim_* / ntt_* element operations, the FFT/NTT itself) are uninterpreted in the Verus units: that forward followed by inverse is the identity and that products are exact is NOT decided (FFT64 is floating point; NTT butterflies / CRT reconstruction time out in CBMC). idft_apply*, svp, convolution apply (the prepare step IS: unit cnv_prepare_fft64 -- complete write of the block layout, padding rows zero), vmp_prepare (the writer of the vmp block layout) and the NTT120 vmp / convolution are not under contract; the reim4 block kernels are abstract (contracts assumed on the Reim4BlkMatVec trait).',
-    units=[V('vec_znx_dft'), V('vec_znx_dft_ntt120'), V('vmp_fft64'), V('cnv_prepare_fft64'), V('cnv_apply_fft64'),
+    units=[V('vec_znx_dft'), V('vec_znx_dft_ntt120'), V('vmp_fft64'), V('vmp_ntt120'), V('cnv_prepare_fft64'), V('cnv_apply_fft64'),
            K('poulpy-cpu-ref', 'verif_kani::c07', ['c07_b_from_znx64_residues', 'c07_b_from_znx64_masked_residues'], cls='complete', timeout=900,
              functions=['reference::ntt120::arithmetic::b_from_znx64_ref', 'b_from_znx64_masked_ref'])],
     trusted_base=VERUS_TRUST + ['abstract kernel contracts of ReimArith / ReimFFTExecute / Ntt* traits (block in, block out; lengths)', 'limb_u64 / limb_u64_mut (bytemuck casts of at / at_mut) return the 4n-word block of the limb',
